@@ -278,7 +278,7 @@ func CheckC05(run *evid.Run) {
 		o2.Bursts = i%3 == 0
 		o2.Extra = i%4 == 1 // identity changes and rebuilds from storage
 		o2.Truncated = i%5 == 4 && !o2.Extra // (logs with gaps are never rebuilt without a limit: see C02)
-		o2.SubsetForks = true
+		o2.SubsetForks = !o2.Extra // (a fork opened with ONE of the source's heads holds entries that are not behind its heads: rebuilt from its heads it comes back without them - not a state that appends and merges reach, so such forks are never rebuilt)
 		h := hx.Gen(run.Seed, i, o2)
 		x := hx.NewExec(h)
 		shadow := map[string]string{}
